@@ -46,6 +46,8 @@ func createCron(node gen.Node) *cron {
 	now := time.Now()
 	next := now.Add(time.Minute).Truncate(time.Minute)
 	in := next.Sub(now)
+	// jobs added before the first tick are spooled for the minute of the first tick
+	c.next = next
 
 	c.timer = time.AfterFunc(in, func() {
 		if node.IsAlive() == false {
@@ -340,6 +342,12 @@ func (c *cron) scheduleJob(cj *cronJob) {
 	}
 	if cj.mask.IsRunAt(next) == false {
 		return
+	}
+	// already spooled for this minute (DisableJob+EnableJob or repeated EnableJob)
+	for item := c.spool.Item(); item != nil; item = item.Next() {
+		if v, ok := item.Value().(*cronJob); ok && v == cj {
+			return
+		}
 	}
 	c.spool.Push(cj)
 }
